@@ -22,16 +22,16 @@ type c10Cfg struct {
 
 // c10World is one gateway (+ rdpgw-auth) under hostile input.
 type c10World struct {
-	lab   *Lab
-	cfg   c10Cfg
-	gw    *GW
-	idp   *IdP
-	authp *AuthProc
-	krb   *KrbEnv
-	b     *Backend
-	kdc   *Backend
+	lab    *Lab
+	cfg    c10Cfg
+	gw     *GW
+	idp    *IdP
+	authp  *AuthProc
+	krb    *KrbEnv
+	b      *Backend
+	kdc    *Backend
 	cookie string
-	gwCfg *GWConfig
+	gwCfg  *GWConfig
 }
 
 type c10Input struct {
@@ -309,11 +309,11 @@ func c10Inputs(l *Lab, cfg c10Cfg, rnd *rand.Rand) []c10Input {
 		upto int
 		body []byte
 	}{
-		"HS": {1, 0, HandshakeReq(1, 0, 0, 2)[8:]},
-		"TC": {4, 1, TunnelCreate(0, StrP("cookie-cookie"))[8:]},
-		"TA": {6, 2, TunnelAuth("client-name")[8:]},
-		"CC": {8, 3, ChannelCreate("127.0.0.1", 3389)[8:]},
-		"DATA": {0xA, 4, Data([]byte("0123456789abcdef"))[8:]},
+		"HS":    {1, 0, HandshakeReq(1, 0, 0, 2)[8:]},
+		"TC":    {4, 1, TunnelCreate(0, StrP("cookie-cookie"))[8:]},
+		"TA":    {6, 2, TunnelAuth("client-name")[8:]},
+		"CC":    {8, 3, ChannelCreate("127.0.0.1", 3389)[8:]},
+		"DATA":  {0xA, 4, Data([]byte("0123456789abcdef"))[8:]},
 		"CLOSE": {0x10, 4, CloseChannel(0)[8:]},
 	}
 	for name, b := range bodies {
@@ -355,17 +355,19 @@ func c10Inputs(l *Lab, cfg c10Cfg, rnd *rand.Rand) []c10Input {
 	}
 	// ---- websocket frames
 	wsFrames := map[string]func(t *TClient) []byte{
-		"text":            func(t *TClient) []byte { return t.WSFrame(true, 0x1, HandshakeReq(1, 0, 0, 2), false) },
-		"ping":            func(t *TClient) []byte { return t.WSFrame(true, 0x9, []byte("ping"), false) },
-		"close":           func(t *TClient) []byte { return t.WSFrame(true, 0x8, []byte{3, 232}, false) },
-		"unmasked":        func(t *TClient) []byte { return t.WSFrame(true, 0x2, HandshakeReq(1, 0, 0, 2), true) },
-		"reserved-opcode": func(t *TClient) []byte { return t.WSFrame(true, 0x5, []byte{1, 2, 3}, false) },
+		"text":               func(t *TClient) []byte { return t.WSFrame(true, 0x1, HandshakeReq(1, 0, 0, 2), false) },
+		"ping":               func(t *TClient) []byte { return t.WSFrame(true, 0x9, []byte("ping"), false) },
+		"close":              func(t *TClient) []byte { return t.WSFrame(true, 0x8, []byte{3, 232}, false) },
+		"unmasked":           func(t *TClient) []byte { return t.WSFrame(true, 0x2, HandshakeReq(1, 0, 0, 2), true) },
+		"reserved-opcode":    func(t *TClient) []byte { return t.WSFrame(true, 0x5, []byte{1, 2, 3}, false) },
 		"continuation-first": func(t *TClient) []byte { return t.WSFrame(true, 0x0, []byte{1, 2, 3}, false) },
-		"rsv-bits":        func(t *TClient) []byte { f := t.WSFrame(true, 0x2, []byte{1}, false); f[0] |= 0x70; return f },
-		"oversize-declared": func(t *TClient) []byte { return []byte{0x82, 0xFF, 0x7F, 0xFF, 0xFF, 0xFF, 0xFF, 0xFF, 0xFF, 0xFF, 1, 2, 3, 4} },
-		"big-1MiB":        func(t *TClient) []byte { return t.WSFrame(true, 0x2, make([]byte, 1<<20), false) },
-		"empty-binary":    func(t *TClient) []byte { return t.WSFrame(true, 0x2, nil, false) },
-		"huge-control":    func(t *TClient) []byte { return t.WSFrame(true, 0x9, make([]byte, 200), false) },
+		"rsv-bits":           func(t *TClient) []byte { f := t.WSFrame(true, 0x2, []byte{1}, false); f[0] |= 0x70; return f },
+		"oversize-declared": func(t *TClient) []byte {
+			return []byte{0x82, 0xFF, 0x7F, 0xFF, 0xFF, 0xFF, 0xFF, 0xFF, 0xFF, 0xFF, 1, 2, 3, 4}
+		},
+		"big-1MiB":     func(t *TClient) []byte { return t.WSFrame(true, 0x2, make([]byte, 1<<20), false) },
+		"empty-binary": func(t *TClient) []byte { return t.WSFrame(true, 0x2, nil, false) },
+		"huge-control": func(t *TClient) []byte { return t.WSFrame(true, 0x9, make([]byte, 200), false) },
 	}
 	for name, mk := range wsFrames {
 		for _, upto := range []int{0, 4} {
@@ -483,6 +485,77 @@ func c10Inputs(l *Lab, cfg c10Cfg, rnd *rand.Rand) []c10Input {
 	}
 	for name, f := range legacy {
 		add("legacy-ordering", name, f)
+	}
+	// ---- connections dropped while the host is still sending
+	for _, how := range []string{"close-out", "rst-out", "fin-in", "rst-in", "rst-ws", "fin-ws"} {
+		for rep := 0; rep < 3; rep++ {
+			how := how
+			add("teardown-under-traffic", how, func(w *c10World, rec *c10Rec) {
+				tr := "legacy"
+				if strings.HasSuffix(how, "-ws") {
+					tr = "ws"
+				}
+				e := w.env(tr)
+				t, _, err := e.OpenTunnel(NewConnID("tt"))
+				if err != nil || t == nil {
+					return
+				}
+				defer t.Close()
+				caps := uint16(0)
+				if w.cfg.Kind == "openid" {
+					caps = 2
+				}
+				ck := w.cookie
+				mu := backendLock(w.b)
+				mu.Lock()
+				n0 := len(w.b.Conns())
+				okc := true
+				for i, s := range [][]byte{HandshakeReq(1, 0, 0, caps), TunnelCreate(0, &ck), TunnelAuth("c"), ChannelCreate(w.b.Host, uint16(w.b.Port))} {
+					t.Send(s)
+					if n, _ := t.WaitPackets(i+1, 3*time.Second); n < i+1 {
+						okc = false
+						break
+					}
+				}
+				var bc *BConn
+				if okc {
+					bc = w.b.WaitConn(n0, 3*time.Second)
+				}
+				mu.Unlock()
+				if bc == nil {
+					return
+				}
+				defer bc.C.Close()
+				stop := make(chan struct{})
+				go func() {
+					buf := GenStream(77, 32*1024)
+					for {
+						select {
+						case <-stop:
+							return
+						default:
+						}
+						bc.C.SetWriteDeadline(time.Now().Add(time.Second))
+						if _, err := bc.C.Write(buf); err != nil {
+							return
+						}
+					}
+				}()
+				t.WaitDataBytes(20000, 2*time.Second)
+				switch how {
+				case "close-out":
+					t.CloseOut(false)
+				case "rst-out":
+					t.CloseOut(true)
+				case "fin-in", "fin-ws":
+					t.CloseWrite()
+				default:
+					t.ResetUp()
+				}
+				time.Sleep(80 * time.Millisecond)
+				close(stop)
+			})
+		}
 	}
 	chunkJunk := [][]byte{[]byte("zz\r\nabc\r\n"), []byte("ffffffffffffffffff\r\n"), []byte("-1\r\n"), []byte("5\r\nab"), []byte("5;ext=1\r\nhello\r\n"),
 		[]byte("\r\n\r\n\r\n"), []byte("0\r\n\r\n"), bytes.Repeat([]byte("1\r\nA\r\n"), 3000), []byte("e\r\n" + string(HandshakeReq(1, 0, 0, 2)) + "XX"), []byte("7fffffff\r\n")}
